@@ -212,6 +212,22 @@ CLAIMED["C09"] = (
     "Trusted: Lean kernel; standard axioms; harness (field extraction, YAML canonicalisation). Runtime behaviour not modelled: asdf/asdf-astropy/YAML/pickle; last-bit parameter changes of astropy rotation models (1e-12).",
     "Lean 4 proofs (case analysis + structural induction over nested frames) + exact converter-level correspondence + real round-trip comparison", "DESIGN.md §6 C09")
 
+CLAIMED["C11"] = (
+    "Lean 4 theorems: (groups) for EVERY list of axis sets the merge loop of _separable_groups returns pairwise disjoint groups that cover "
+    "exactly the input axes and never split world axes sharing a pixel axis (groups_pairwise_disjoint, groups_cover, "
+    "input_set_in_one_group; induction over the loop with the fixpoint invariant of the fixed code); (table) with the CRPIX/CDELT/CRVAL that "
+    "_to_fits_tab writes, the FITS Paper III index at the k-th node is exactly k+1 for every box, node count and k, first/last nodes are "
+    "the box ends, the reader returns the tabulated value at a node and a convex combination of neighbours between nodes, and the node "
+    "spacing never exceeds the requested step (tab_node_exact, tab_spans_box, reader_at_node, tab_between_nodes, step_le_sampling); "
+    "(header) NAXISj cards stay in increasing order and hold the box (insertAll_sorted, naxis_holds_box). PARTIAL: wcslib's reader is "
+    "exercised, not modelled beyond psi/interp. Tied to gwcs by correspondence (groups, node counts, NAXIS, CRPIX, scale vs header cards) "
+    "and by reading every returned header+tables with astropy.wcs.WCS and comparing with the gwcs transform at every tabulated node "
+    "(independent linspace grid) and at random in-box points against the surrounding node values, for generated WCS of 1-4 pixel axes "
+    "(sky, spectral, time, generic, coupled pair, slit 2->3, fans 1->2 and 1->3, transitive chain) in any world-axis permutation, "
+    "offset/fractional boxes, scalar/per-axis sampling, to_fits_tab and to_fits, plus the three rejected calls.",
+    "Trusted: Lean kernel; standard axioms; harness; astropy.wcs/wcslib as the standard reader. Runtime behaviour not modelled: float rounding in linspace/reader (1e-9 relative).",
+    "Lean 4 proofs (loop invariant induction; rational arithmetic of the -TAB index) + header correspondence + end-to-end comparison through the standard FITS reader", "DESIGN.md §6 C11")
+
 NOT_YET = "check not built yet in this round; will be claimed once its Lean model, theorems and correspondence run green"
 
 
